@@ -13,7 +13,7 @@ import (
 func init() {
 	register("C13", PropCheck{
 		Title:      "A storage error on Postgres never wedges the store or loses acknowledged writes",
-		Explain:    "Transaction typestate, decided on every path including the error paths no test takes: (R1) pgDb.tx is stored only nil or the result of BeginTx, and every Commit/Rollback on the stored handle is followed by storing nil on every path (ended exactly once); (R2) in every operation that opens the implicit transaction (Put, Get), every path from the opener's success edge (the opener itself, or an unexported helper that calls it, reports success only behind its success edge and returns nothing but success afterwards) to a return passes a closer (a method that commits or rolls back the stored handle; a deferred closer counts from its registration), and the error of every committing closer flows into the operation's error result; (R3) for a local BeginTx result (Dump, ensureTable) every path from the success edge to a return passes Commit or Rollback (deferred counts) and the failure edge does not touch the handle; (R4) exported methods that do not open a transaction (Abort, Stop, Close) dereference the stored handle only behind a non-nil test; (R5) explicit mode: multi is set only after the opener succeeded, and every commit reached from a single operation (Put, Get) lies behind the multi==false edge, tested in the closer or at its call site.",
+		Explain:    "Transaction typestate, decided on every path including the error paths no test takes: (R1) pgDb.tx is stored only nil or the result of BeginTx, and every Commit/Rollback on the stored handle is followed by storing nil on every path (ended exactly once); (R2) in every operation that opens the implicit transaction (Put, Get), every path from the opener's success edge (the opener itself, or an unexported helper that calls it, reports success only behind its success edge and returns nothing but success afterwards) to a return passes a closer (a method that commits or rolls back the stored handle; a deferred closer counts from its registration), and the error of every committing closer flows into the operation's error result; (R3) for a local BeginTx result (Dump, ensureTable) every path from the success edge to a return passes Commit or Rollback (deferred counts) and the failure edge does not touch the handle; (R4) exported methods that do not open a transaction (Abort, Stop, Close) dereference the stored handle only behind a non-nil test; (R5) explicit mode: multi is set only after the opener succeeded, and every commit reached from a single operation (Put, Get) lies behind the multi==false edge, tested in the closer or at its call site; (R7) an operation opens at most one transaction: after a rollback (Abort, or Rollback on the stored handle) no opener is reachable in the same call - a retry on a fresh transaction inside Start..Stop discards the acknowledged writes before it and reports success (added after seeded change C13-G); (R8) a back end that declares one of Start, Stop, Abort itself declares all three itself (checked on the method sets): none silently falls back to DbBase's do-nothing version (added after C13-H, where the public Abort was renamed away).",
 		NotDecided: "that later operations return exactly the acknowledged values (history-level); behaviour of the driver itself after a failed statement; clearing of multi when a transaction ends (TestPostgresTxStartStop pins that it stays set).",
 		Run:        runC13,
 	})
@@ -35,6 +35,8 @@ func runC13(w *core.World, r *core.Report) {
 	r.Rule("R2", "Put/Get: every path after the opener's success passes a closer; commit errors reach the caller")
 	r.Rule("R3", "local transactions (Dump, ensureTable): ended on every path; failure edge does not touch the handle")
 	r.Rule("R4", "Abort/Stop/Close: stored handle dereferenced only behind a non-nil test")
+	r.Rule("R8", "a back end that declares one of Start/Stop/Abort itself declares all three (none falls back to DbBase's no-op)")
+	r.Rule("R7", "no new transaction after a rollback in the same operation")
 	r.Rule("R5", "multi set only after the opener succeeded; stopSingle commits only when multi is false")
 	r.Rule("R6", "Put/Get and their helpers: the error of every driver call (begin, statement, row fetch, commit) flows into the function's error result")
 
@@ -557,6 +559,9 @@ func runC13(w *core.World, r *core.Report) {
 		visit(op, 0)
 	}
 	r.Floor("R5", "commits of the single-operation closer", n5, 1)
+	// ---- R7 / R8 ------------------------------------------------------------------------------
+	checkNoReopenAfterRollback(w, r, "R7", fns, openers, closers)
+	checkTxMethodsDeclaredTogether(w, r, "R8")
 }
 
 // isNamedResult: fn declares a named result with this name (only then does an assignment made in a
